@@ -64,3 +64,13 @@ Proof.
     rewrite (Z.mod_small (r / 1000000000)) by lia.
     rewrite (Z.mod_small (r mod 1000000000)) by lia. lia.
 Qed.
+
+(* ---- BufRing::add_buffer (compio-driver/src/sys/buffer_pool/iour.rs) -------------------- *)
+From Compio.Model Require Import Pool.
+Theorem ring_idx_tie : forall t off len,
+  ring_idx t off len =
+    if (t + off <? U16)%N then Ok (nn (Frag.pool_ring_idx t off (NN len))) else Panic P_ADD_OVERFLOW.
+Proof.
+  intros t off len. unfold ring_idx, u16_add, Frag.pool_ring_idx.
+  destruct (t + off <? U16)%N; reflexivity.
+Qed.
